@@ -90,11 +90,90 @@ def _is_optional(n):
     return 'optional<' in t or t.startswith('std::optional') or 'std::optional' in t
 
 
+_CUR_TU = [None]
+
+
+def _predicate_call(n):
+    """For a call of a repository function whose body is `return <expr>;` (a named predicate such as
+    is_out_of_range(i, n)): (return expression, {canonical parameter path: canonical argument path}), else None.
+    The facts of the returned expression, with the arguments substituted, are the facts of the call."""
+    tu = _CUR_TU[0]
+    if tu is None or n.get('kind') != 'CallExpr':
+        return None
+    c = children(n)
+    ref = (strip(c[0]).get('referencedDecl') or {}) if c else {}
+    if ref.get('kind') not in ('FunctionDecl', 'CXXMethodDecl') or ref.get('name') in CONVERTERS:
+        return None
+    from . import program
+    prog = program.load()
+    d = tu.ids.get(ref.get('id'))
+    defs = prog.definitions_for(tu, d) if d is not None else []
+    if len(defs) != 1 or defs[0].body is None or not prog.in_repo(defs[0].file):
+        return None
+    f = defs[0]
+    body = [x for x in children(f.body)]
+    if len(body) != 1 or body[0].get('kind') != 'ReturnStmt' or not children(body[0]):
+        return None
+    if 'bool' not in (f.type or '').split('(')[0]:
+        return None
+    args = c[1:]
+    if len(args) != len(f.params):
+        return None
+    m = {}
+    for p_, a in zip(f.params, args):
+        m['#%s:%s' % (p_.get('id'), p_.get('name'))] = canon(a)
+    return children(body[0])[0], m
+
+
+def _subst_fact(fact, m):
+    if isinstance(fact, str):
+        for k, v in m.items():
+            if k in fact:
+                if v is None:
+                    return None
+                fact = fact.replace(k, v)
+        return fact
+    if isinstance(fact, tuple):
+        out = []
+        for x in fact:
+            y = _subst_fact(x, m)
+            if y is None and x is not None:
+                return None
+            out.append(y)
+        return tuple(out)
+    if isinstance(fact, (set, frozenset)):
+        out = set()
+        for x in fact:
+            y = _subst_fact(x, m)
+            if y is not None:
+                out.add(y)
+        return type(fact)(out)
+    return fact
+
+
+def _via_predicate(n, truth):
+    pc = _predicate_call(n)
+    if pc is None:
+        return None
+    expr, m = pc
+    facts = truthy(expr) if truth else falsy(expr)
+    out = set()
+    for f in facts:
+        g = _subst_fact(f, m)
+        if g is not None:
+            out.add(g)
+    return out
+
+
 def truthy(cond):
     """Facts implied by cond being true."""
     out = set()
     n = strip(cond)
     k = n.get('kind')
+    if k == 'CallExpr':
+        via = _via_predicate(n, True)
+        if via is not None:
+            return via
     if k == 'BinaryOperator':
         op = n.get('opcode')
         c = children(n)
@@ -141,6 +220,10 @@ def falsy(cond):
     out = set()
     n = strip(cond)
     k = n.get('kind')
+    if k == 'CallExpr':
+        via = _via_predicate(n, False)
+        if via is not None:
+            return via
     if k == 'BinaryOperator':
         op = n.get('opcode')
         c = children(n)
@@ -353,6 +436,7 @@ class Walker:
         self.visit = visit
 
     def run(self):
+        _CUR_TU[0] = getattr(self.func, 'tu', None)
         if self.func.body is not None:
             self.stmt(self.func.body, set())
 
